@@ -10,6 +10,7 @@ mkdir -p "$BUILD" "$VERIF/evidence" "$VERIF/replays"
 driver_for() {
   case "$1" in
     C11|C17) echo vsx ;;
+    C07) echo vx7 ;;
     *) echo vx ;;
   esac
 }
@@ -68,11 +69,45 @@ print(json.dumps({"Replace": m}, indent=1))
 PY
 }
 
+# gen_overlay_e3: base overlay + the toolchain's own map implementation patched so that iteration
+# offsets and per-map seeds are a stateless function of a key (and the runtime's hash keys are fixed).
+# Every patch asserts that its anchor occurs the expected number of times.
+gen_overlay_e3() {
+  mkdir -p "$BUILD/e3"
+  python3 - "$BUILD" "$(cd "$REPO" && go env GOROOT)" > "$BUILD/overlay_e3.json" <<'PY' || return 1
+import json, sys
+build, goroot = sys.argv[1:3]
+m = json.load(open(build + "/overlay.json"))["Replace"]
+def patch(rel, edits, append=""):
+    src = open(goroot + "/src/" + rel).read()
+    for old, new, n in edits:
+        if src.count(old) != n:
+            sys.stderr.write("map-iteration seam: anchor %r occurs %d times in %s, expected %d\n" % (old, src.count(old), rel, n))
+            sys.exit(1)
+        src = src.replace(old, new)
+    out = build + "/e3/" + rel.replace("/", "_")
+    open(out, "w").write(src + append)
+    m[goroot + "/src/" + rel] = out
+patch("internal/runtime/maps/table.go",
+      [("it.entryOffset = rand()", "it.entryOffset = VerifIterKey * 0x9E3779B97F4A7C15", 1),
+       ("it.dirOffset = rand()", "it.dirOffset = VerifIterKey * 0xC2B2AE3D27D4EB4F", 1)],
+      "\n// VerifIterKey fixes map iteration offsets and seeds (verification seam).\nvar VerifIterKey uint64\n")
+patch("internal/runtime/maps/map.go", [("m.seed = uintptr(rand())", "m.seed = uintptr(VerifIterKey*0xD6E8FEB86659FD93 + 1)", 4)])
+patch("runtime/alg.go",
+      [("hashkey[i] = uintptr(bootstrapRand())", "hashkey[i] = uintptr(0x9E3779B97F4A7C15 * uint64(i+1))", 1),
+       ("key[i] = bootstrapRand()", "key[i] = 0x9E3779B97F4A7C15 * uint64(i+1)", 1)])
+print(json.dumps({"Replace": m}, indent=1))
+PY
+}
+
 build_driver() {
   gen_overlay || return 1
   case "$1" in
     vx)
       (cd "$VERIF/harness" && go build -tags verif -overlay "$BUILD/overlay.json" -o "$BUILD/vx" ./cmd/vx) ;;
+    vx7)
+      gen_overlay_e3 || return 1
+      (cd "$VERIF/harness" && go build -tags verif -overlay "$BUILD/overlay_e3.json" -ldflags=-checklinkname=0 -o "$BUILD/vx7" ./cmd/vx7) ;;
     vsx)
       gen_overlay_e2 || return 1
       (cd "$VERIF/harness" && GODEBUG=goindex=0 go build -race -tags verif -overlay "$BUILD/overlay_e2.json" \
